@@ -73,6 +73,18 @@ func checkC01(w *World, r *Report) {
 	// mutates) is block-scoped, rebuilt from committed state at start-up, or handed
 	// over at Commit (C07 R-1) — otherwise a replica that was restarted answers
 	// differently from one that was not
+	// ... and what start-up installs is what the commits installed (C07 R-2, the constructor's part)
+	{
+		tmp := NewReport(r.Prop, r.Tier)
+		r2(w, tmp)
+		for _, o := range tmp.Obs {
+			if o.Rule == "R-2" && strings.Contains(o.Key, "NewGovCtrler:") {
+				o.Rule = "D-8"
+				o.Key = "D-8:" + strings.TrimPrefix(o.Key, "R-2:")
+				r.Obs = append(r.Obs, o)
+			}
+		}
+	}
 	if r.importObs(w, func(t *Report) { r1(w, t, x); startupLag(w, t, "R-1") }, "R-1", "D-8") < 12 {
 		r.Undecided("D-8", "process-age", "fewer than 12 controller fields written during block execution were found")
 	}
@@ -317,7 +329,21 @@ func (w *World) mapRangeIdiom(fn *ssa.Function, rg *ssa.Range) (string, string) 
 			}
 			if bi, isB := c.Common().Value.(*ssa.Builtin); isB && bi.Name() == "delete" {
 				a := c.Common().Args
-				if len(a) == 2 && stripConv(a[0]) == stripConv(rg.X) && keyV != nil && a[1] == keyV {
+				// the key may live in an addressable loop variable (`k[:]` is taken elsewhere)
+				isOwnKey := func(v ssa.Value) bool {
+					if v == keyV {
+						return true
+					}
+					if ld, isLd := v.(*ssa.UnOp); isLd && ld.Op == token.MUL {
+						if al, isA := ld.X.(*ssa.Alloc); isA {
+							if sv := singleStore(al); sv != nil && sv == keyV {
+								return true
+							}
+						}
+					}
+					return false
+				}
+				if len(a) == 2 && (stripConv(a[0]) == stripConv(rg.X) || w.Canon(a[0]) == w.Canon(rg.X)) && keyV != nil && isOwnKey(a[1]) {
 					nDel++
 					continue
 				}
